@@ -12,10 +12,12 @@ import (
 
 type clientAddr struct {
 	ip   [net.IPv6len]byte // use a fixed-size array to enable the equality operator
+	zone string            // IPv6 scoped addressing zone
 	port int
 }
 
-func (p *clientAddr) fill(ip net.IP, port int) {
+func (p *clientAddr) fill(ip net.IP, zone string, port int) {
+	p.zone = zone
 	p.port = port
 
 	if len(ip) == net.IPv4len {
@@ -147,7 +149,7 @@ func (u *serverUDPListener) run() {
 			defer u.clientsMutex.RUnlock()
 
 			var ca clientAddr
-			ca.fill(addr.IP, addr.Port)
+			ca.fill(addr.IP, addr.Zone, addr.Port)
 			cb, ok := u.clients[ca]
 			if !ok {
 				return
@@ -168,9 +170,9 @@ func (u *serverUDPListener) write(buf []byte, addr *net.UDPAddr) error {
 	return err
 }
 
-func (u *serverUDPListener) addClient(ip net.IP, port int, cb readFunc) {
+func (u *serverUDPListener) addClient(ip net.IP, zone string, port int, cb readFunc) {
 	var addr clientAddr
-	addr.fill(ip, port)
+	addr.fill(ip, zone, port)
 
 	u.clientsMutex.Lock()
 	defer u.clientsMutex.Unlock()
@@ -178,9 +180,9 @@ func (u *serverUDPListener) addClient(ip net.IP, port int, cb readFunc) {
 	u.clients[addr] = cb
 }
 
-func (u *serverUDPListener) removeClient(ip net.IP, port int) {
+func (u *serverUDPListener) removeClient(ip net.IP, zone string, port int) {
 	var addr clientAddr
-	addr.fill(ip, port)
+	addr.fill(ip, zone, port)
 
 	u.clientsMutex.Lock()
 	defer u.clientsMutex.Unlock()
